@@ -172,7 +172,10 @@ func runC14(ops []string) CaseResult {
 			}
 		}
 		if again := runC14x(ops, false); len(again.Fails) == 0 {
-			res.Finding = "C14-path-aliasing"
+			// report the finding, but hand the outputs of the clean run to the correspondence: the byte-exact tie with
+			// the model stays in force for this case
+			again.Fails, again.Finding = res.Fails, "C14-path-aliasing"
+			return again
 		}
 	}
 	return res
